@@ -793,7 +793,9 @@ def judge(ctx, case, evo, interp, aux, outs):
     if plan_line.startswith("DIE"):
         reason = plan_line.split()[1]
         want_status = {"parser": "exit2", "tum_without_stamps": "raised FileInterfaceException"}.get(reason, "exit1")
-        if evo["status"] != want_status or evo["files"]:
+        # the TUM writer raises at the very end: an earlier step may raise first (e.g. alignment of unequal lengths)
+        status_ok = evo["status"].startswith("raised") if reason == "tum_without_stamps" else evo["status"] == want_status
+        if not status_ok or evo["files"]:
             ctx.mismatch(case, f"model: evo_traj stops ({reason}) without exporting", evo["status"] + " " + str(sorted(evo["files"])), plan_line)
         ctx.count("branch", "die:" + reason)
     else:
